@@ -5,7 +5,9 @@ from vlib import cz, czl
 
 LEVEL_TEXT = ("Theorems in Coq over an abstract field with conjugation (any order, any lag sequence): the model of "
               "LEVINSON satisfies T_p[1,a]=[P,0..0], P=r0*prod(1-|k|^2), nesting, and raises exactly at a stage with P<=0; "
-              "in the abstract ordered *-field a positive-definite r gives P>0, |k|<1 at every order and a stable polynomial; "
+              "in the abstract ordered *-field a positive-definite r gives P>0, |k|<1 at every order and a stable polynomial, and conversely "
+              "(LDL^H reading with the backward predictor) positive stage errors force positive definiteness: with r0>0 LEVINSON returns "
+              "iff r is positive definite, so a non-positive-definite r raises unless singularity is allowed; "
               "the models of HERMTOEP and of the general TOEPLITZ return x with T x = z (HERMTOEP fails only at a stage with P<=0). "
               "The hand-written Gallina model is tied to the code by running both on the same exact dyadic inputs "
               "(vm_compute over Gaussian rationals, comparison inside Coq) and a property-directed search on the implementation.")
@@ -18,7 +20,8 @@ UNPROVED = ["CHOLESKY (numpy/scipy back ends): residual search only",
 ASSUMPTIONS = ["exact arithmetic in the theorems; rounding error of the binary64 code is not bounded by any theorem",
                "inputs of the correspondence run are dyadic rationals with few significant bits"]
 RULE = ("autocorrelation sequences of random real/complex low-bit dyadic data (orders 1..8 exact in Coq, up to 40 in the search), "
-        "indefinite sequences, allow_singularity both ways; a case is non-trivial when order >= 2 and the data are not constant; "
+        "indefinite sequences (clearly indefinite, and moderately perturbed ones classified by the eigenvalues of the leading Toeplitz blocks), "
+        "allow_singularity both ways; a case is non-trivial when order >= 2 and the data are not constant; "
         "distinct = distinct (function, input) hashes")
 
 PRE = """Require Import Spectrum.Theory.Ops Spectrum.Theory.Vec Spectrum.Model.Levinson Spectrum.Instances.QcC.
@@ -74,6 +77,19 @@ def toeplitz_matrix(r):
     return T
 
 
+def pd_verdict(r, margin=1e-6):
+    """'pd' / 'indef' / 'ambiguous' for the Hermitian Toeplitz matrix of r (r[0] > 0), decided at the FIRST leading
+    block that is not clearly positive definite: there the stage error of the recursion is <= -margin*scale
+    (interlacing: |P_m| >= |lambda_min(T_m)| when T_(m-1) is positive definite), so rounding cannot flip its sign."""
+    T = toeplitz_matrix(r)
+    for m in range(1, len(r) + 1):
+        lam = np.linalg.eigvalsh(T[:m, :m])
+        scale = max(np.max(np.abs(lam)), 1e-300)
+        if lam[0] < margin * scale:
+            return 'indef' if lam[0] < -margin * scale else 'ambiguous'
+    return 'pd'
+
+
 def check_levinson_property(r, order, tag):
     """returns list of (key, what) failing clauses for a positive-definite r"""
     from spectrum import LEVINSON
@@ -116,6 +132,12 @@ def replay(rep):
             except ValueError:
                 return True
             return False
+        if r.get('expect') == 'returns-pd':
+            try:
+                _, P, k = LEVINSON(rr, order)
+            except ValueError:
+                return False
+            return bool(P > 0 and np.all(np.abs(k) < 1))
         return not check_levinson_property(rr, order, r.get('tag', 'replay'))
     if r.get('function') in ('HERMTOEP', 'TOEPLITZ', 'CHOLESKY'):
         return solver_residual_ok(r['function'], r)
@@ -308,6 +330,30 @@ def run(ctx):
         except ValueError:
             ctx.violation('levinson_allow/LEVINSON/' + tag, 'raised although allow_singularity=True', {'function': 'LEVINSON', 'r': vlib.hexv(r2), 'order': p, 'expect': 'returns'})
         ctx.case(('search-lev-indef', r2.tobytes(), p), nontrivial=(p >= 2))
+        # levinson_returns_iff_pd: with r0 > 0 the recursion returns exactly on positive-definite sequences.  One lag is
+        # perturbed moderately; the oracle is the spectrum of the leading Toeplitz blocks (independent of the recursion).
+        r3 = r.copy(); j = int(rng.integers(1, p + 1))
+        d = rng.uniform(-1.3, 1.3) * np.real(r[0])
+        r3[j] = r3[j] + (d * np.exp(2j * np.pi * rng.uniform()) if cplx else d)
+        verdict = pd_verdict(r3)
+        ctx.count('search/LEVINSON/iff-pd/' + verdict)
+        ctx.case(('search-lev-iffpd', r3.tobytes(), p), nontrivial=(p >= 2))
+        if verdict == 'pd':
+            try:
+                _, P3, k3 = LEVINSON(r3, p)
+                if not (P3 > 0 and np.all(np.abs(k3) < 1)):
+                    ctx.violation('levinson_pd/LEVINSON/' + tag, 'P <= 0 or |k| >= 1 on a positive-definite sequence (eigenvalues of every leading block > 0)',
+                                  {'function': 'LEVINSON', 'r': vlib.hexv(r3), 'order': p, 'expect': 'returns-pd'})
+            except ValueError as e:
+                ctx.violation('levinson_pd/LEVINSON/' + tag, 'raised %r on a positive-definite sequence (eigenvalues of every leading block > 0)' % e,
+                              {'function': 'LEVINSON', 'r': vlib.hexv(r3), 'order': p, 'expect': 'returns-pd'})
+        elif verdict == 'indef':
+            try:
+                LEVINSON(r3, p)
+                ctx.violation('levinson_raises/LEVINSON/' + tag, 'no exception for a sequence that is not positive definite (a leading Toeplitz block has a negative eigenvalue)',
+                              {'function': 'LEVINSON', 'r': vlib.hexv(r3), 'order': p, 'expect': 'raises'})
+            except ValueError:
+                pass
     # solvers: residuals
     for it in range(ctx.q(120, 1000)):
         p = int(rng.integers(1, ctx.q(12, 30))); N = p + int(rng.integers(4, 40))
